@@ -626,6 +626,37 @@ impl MemBrokerService {
             .await
     }
 
+    // verif hook H3: the two storage phases of `auto_scale_node_number`
+    // without the TCP wait between them.
+    #[cfg(feature = "verif")]
+    pub async fn verif_auto_change_node_number(
+        &self,
+        cluster_name: String,
+        new_node_num: usize,
+    ) -> Result<(u8, Vec<String>, u64), MetaStoreError> {
+        let (scale_op, proxy_addresses, cluster_epoch) = self
+            .storage
+            .auto_change_node_number(cluster_name, new_node_num)
+            .await?;
+        let op = match scale_op {
+            ScaleOp::NoOp => 0,
+            ScaleOp::ScaleOut => 1,
+            ScaleOp::ScaleDown => 2,
+        };
+        Ok((op, proxy_addresses, cluster_epoch))
+    }
+
+    #[cfg(feature = "verif")]
+    pub async fn verif_auto_scale_out_node_number(
+        &self,
+        cluster_name: String,
+        new_node_num: usize,
+    ) -> Result<(), MetaStoreError> {
+        self.storage
+            .auto_scale_out_node_number(cluster_name, new_node_num)
+            .await
+    }
+
     pub async fn get_failures(&self) -> Result<Vec<String>, MetaStoreError> {
         let failure_ttl = chrono::Duration::seconds(self.config.failure_ttl as i64);
         let failure_quorum = self.config.failure_quorum;
